@@ -2,6 +2,7 @@
 
 from __future__ import annotations
 
+import json
 import os
 import shutil
 
@@ -228,14 +229,20 @@ def save_load(spec, ctx, obj, audio, path):
 
     # the file is written in one local time zone and read in another (a laptop in the field, a server at home): naive timestamps
     # are wall-clock values and aware ones are instants - neither changes with the zone of the reading process
-    zones = {1: ("Pacific/Auckland", "America/Lima"), 2: ("UTC", "Asia/Kolkata")}.get(int(str(spec["top"]["uuid"]).replace("-", "")[-2:], 16) % 5)
+    import zlib
+
+    pick = zlib.crc32(json.dumps(spec["top"], sort_keys=True, default=str).encode())  # a deterministic function of the spec
+    zones = {1: ("Pacific/Auckland", "America/Lima"), 2: ("UTC", "Asia/Kolkata")}.get(pick % 5)
     old_tz = os.environ.get("TZ")
     try:
         if zones:
             os.environ["TZ"] = zones[0]
             time.tzset()
-        ctx.call(spec, f"io.save({spec['ctype']})", io.save, obj, path, **kw)
-        lkw = dict(kw)
+        # the format keyword: left out, named, or None ("inferred from the file") - always the same AOEF document
+        fsel = (pick // 5) % 4
+        skw = dict(kw, **({"format": "aoef"} if fsel == 1 else {}))
+        ctx.call(spec, f"io.save({spec['ctype']})", io.save, obj, path, **skw)
+        lkw = dict(kw, **({"format": "aoef"} if fsel == 2 else ({"format": None} if fsel == 3 else {})))
         if spec.get("typed_load"):
             lkw["type"] = spec["ctype"]
         if zones:
